@@ -23,6 +23,7 @@ func propC04(c *Ctx) {
 	c.ruleFormatFollowsNotation()
 	c.ruleKeyKind()
 	c.ruleLazyErrors()
+	c.ruleSerialiseDepErrors("C04-SERIALISE-DEP-ERRORS")
 	c.ruleRegexChecked()
 	c.rulePathVarTypes()
 	c.ruleDepCalls("C04-DEP-CALLS")
